@@ -8,3 +8,7 @@ require (
 	golang.org/x/mod v0.22.0 // indirect
 	golang.org/x/sync v0.10.0 // indirect
 )
+require (
+	github.com/agnivade/levenshtein v1.1.1
+	golang.org/x/text v0.9.0
+)
